@@ -554,15 +554,12 @@ def run_case(ctx, case):
                 continue
             sig = "C05:unrecoverable-lost" + (":old-tree-build-failed" if any(x["broken"] for x in before.values()) else "")
             res["c05"].append((sig, f"{tag}: '{rel}' held {e['bytes'][:30]!r} (not in the cache), unforced checkout left "
-                                    f"{None if a is None else a['bytes'][:30]!r} without an affirmative prompt"))
+                                    f"{None if a is None or a['bytes'] is None else a['bytes'][:30]!r} without an affirmative prompt"))
         if out[0] == "prompt":
             rel = out[1]
             b, a = before.get(rel), after.get(rel)
             if b is None or a is None or (b["bytes"], b["islink"], b["dest"], b["ino"]) != (a["bytes"], a["islink"], a["dest"], a["ino"]):
                 res["c05"].append(("C05:refused-but-touched", f"{tag}: PromptError('{rel}') but the path changed"))
-            o = md5hex(b["bytes"]) if b is not None and b["bytes"] is not None else None
-            if o is not None and o in cbefore and cbefore[o]["bytes"] == b["bytes"]:
-                res["c05"].append(("C05:refused-recoverable", f"{tag}: PromptError('{rel}') although its content is in the cache"))
 
     # ---- oracle C10
     for cb, ca, tag in ((c0, c1, "call1"), (c1, c2, "call2")):
@@ -570,24 +567,28 @@ def run_case(ctx, case):
             res["c10"].append(("C10:cache-bytes-changed", f"{tag}: the byte snapshot of the cache changed"))
     tgt_bytes = {rel: contents[cid] for rel, cid in case["target"].items()}
     all_cached = all(md5hex(b) in c0 for b in tgt_bytes.values())
-    in_quant = case["force"] and all_cached and not dangling and bool(links)
+    in_quant = case["force"] and all_cached and bool(links)
+    tagq = ":old-tree-build-failed" if dangling else ""
     if in_quant:
         if out1[0] not in ("none", "ret"):
-            res["c10"].append(("C10:forced-checkout-failed", f"forced checkout of a cached target raised {out1}"))
+            res["c10"].append(("C10:forced-checkout-failed" + tagq, f"forced checkout of a cached target raised {out1}"))
         else:
             got = {rel: e["bytes"] for rel, e in ws1.items()}
             if got != tgt_bytes:
-                res["c10"].append(("C10:not-converged", f"workspace after checkout differs from the target: "
+                res["c10"].append(("C10:not-converged" + tagq, f"workspace after checkout differs from the target: "
                                                         f"{sorted(set(got) ^ set(tgt_bytes)) or [r for r in got if got[r] != tgt_bytes[r]]}"))
             if case["second"] == "plain" or not case["relink"]:
                 if out2 != ("none",):
-                    res["c10"].append(("C10:not-idempotent", f"second checkout returned {out2} instead of None"))
+                    res["c10"].append(("C10:not-idempotent" + tagq, f"second checkout returned {out2} instead of None"))
             view = lambda s: {r: (e["bytes"], e["islink"], e["dest"], e["ino"]) for r, e in s.items()}  # noqa: E731
             if (case["second"] == "plain" or not case["relink"]) and view(ws2) != view(ws1):
-                res["c10"].append(("C10:second-call-changed-workspace", "the second checkout changed the workspace"))
+                res["c10"].append(("C10:second-call-changed-workspace" + tagq, "the second checkout changed the workspace"))
             if case["relink"]:
                 allowed = set(links)
                 for rel, e in ws1.items():
+                    if e["bytes"] is None:
+                        res["c10"].append(("C10:wrong-link-type:dangling" + tagq, f"relinking checkout left '{rel}' dangling"))
+                        continue
                     oidp = obj_path(cache, md5hex(e["bytes"]))
                     if e["islink"]:
                         kind = "symlink" if e["dest"] == oidp else "foreign-symlink"
@@ -603,13 +604,18 @@ def run_case(ctx, case):
                         want = links[0]
                         ok = kind == want or (want == "hardlink" and e["bytes"] == b"" and kind == "copy")
                     if not ok:
-                        res["c10"].append((f"C10:wrong-link-type:{kind}-under-{'+'.join(links)}",
+                        res["c10"].append((f"C10:wrong-link-type:{kind}-under-{'+'.join(links)}" + tagq,
                                            f"relinking checkout left '{rel}' as {kind}; usable configured types {links}"))
     # link record: whenever a record was saved by a call that completed, it matches the workspace
     if case["state"] and rec1 is not None and out1[0] in ("none", "ret"):
         row = links1.get(os.path.relpath(ws, root)) if links1 else None
         if row is None or tuple(row) != (ino1, token1):
-            res["c10"].append(("C10:link-record-mismatch" + (":old-tree-build-failed" if dangling else ""), f"saved link record {row} != (inode, token) of the workspace {(ino1, token1)}"))
+            res["c10"].append(("C10:link-record-mismatch", f"saved link record {row} != (inode, token) of the workspace {(ino1, token1)}"))
+    if dangling:
+        # one family, one signature: with a dangling link in the workspace the old tree cannot be built,
+        # nothing is deleted or relinked and the saved record covers the target's keys only
+        res["c10"] = [((sig if sig.startswith("C10:cache-bytes-changed") else "C10:does-not-converge:old-tree-build-failed"), what)
+                      for sig, what in res["c10"]]
     res["tags"] = [f"out1:{out1[0]}", f"out2:{out2[0]}", f"types:{'+'.join(case['types'])}", f"cls:{case['cls']}",
                    f"relink:{case['relink']}", f"prompt:{case['prompt'] if isinstance(case['prompt'], str) else 'some'}",
                    f"state:{case['state']}", f"stream:{case.get('stream')}"]
@@ -696,12 +702,17 @@ def decider_items():
                         fs = FS(True)
                         cache = Cache(types)
                         linked = []
+                        # old entry "in cache", path exists, no force, no prompt: the guarded removal of the
+                        # relink branch passes (in_cache) while the guard of the no-old-entry branch refuses
                         old = TreeEntry(Meta(), ("k",), Meta(is_link=is_link, nlink=nlink),
                                         HashInfo("md5", "1" * 32 if same else "2" * 32)) if has_old else TreeEntry(None, ("k",), None, None)
                         new = TreeEntry(Meta(), ("k",), None, HashInfo("md5", "1" * 32))
-                        co._checkout_file(lambda c, src, f, dst: linked.append(dst), "p", fs, Change(old=old, new=new),
-                                          cache, True, relink)
-                        act = 1 if cache.unprotected else (2 if fs.removed else 0)
+                        try:
+                            co._checkout_file(lambda c, src, f, dst: linked.append(dst), "p", fs, Change(old=old, new=new),
+                                              cache, False, relink)
+                            act = 1 if cache.unprotected else (2 if fs.removed and linked else 98)
+                        except co.PromptError:
+                            act = 0
                         fic = (not is_link) and nlink == 1
                         cf_items.append(({"decider": "_checkout_file", "has_old": has_old, "relink": relink,
                                           "is_link": is_link, "nlink": nlink, "same": same, "types": types},
